@@ -100,7 +100,8 @@ func compareIPs(x, y []byte) int {
 	addrX, okX := netip.AddrFromSlice(x)
 	addrY, okY := netip.AddrFromSlice(y)
 	if !okX || !okY {
-		panic("unexpected IP address byte slice")
+		// not an IP address, hence not equal to any expected address
+		return -1
 	}
 	return addrX.Unmap().Compare(addrY.Unmap())
 }
@@ -458,7 +459,7 @@ func (c *SCIONClient) measureClockOffsetSCION(ctx context.Context, mtrcs *scionC
 			}
 			if authKey != nil {
 				authOpt, err := e2eLayer.FindOption(slayers.OptTypeAuthenticator)
-				if err == nil {
+				if err == nil && len(authOpt.OptData) == scion.PacketAuthOptDataLen {
 					spi, algo := scion.PacketAuthOptMetadata(authOpt)
 					if spi == scion.PacketAuthSPIServer && algo == scion.PacketAuthAlgorithm {
 						_, err = spao.ComputeAuthCMAC(
